@@ -37,7 +37,26 @@ def gen_slice(repo, out):
     return emit_file(os.path.join(out, "Slice.v"), HDR, units)
 
 
-ALL = {"Slice": gen_slice}
+def gen_sqlrange(repo, out):
+    f = os.path.join(repo, "python/lsst/daf/relation/sql/_engine.py")
+    env = {"start": ("start", "Z"), "stop_exclusive": ("stop_exclusive", "Z"), "step": ("step", "Z"),
+           "sql_item": ("sql_item", "S")}
+    units = [
+        Unit(f, "Engine", "convert_predicate", "range_to_sql",
+             [("sql_item", "sexpr"), ("start", "Z"), ("stop_exclusive", "Z"), ("step", "Z")], env, "S", "sexpr",
+             case_pattern="ColumnRangeLiteral(value=range(start=start, stop=stop_exclusive, step=step))",
+             calls={"self.convert_column_literal": ("SLit", ["Z"], "S"),
+                    "sqlalchemy.sql.between": ("SBetween", ["S", "S", "S"], "S"),
+                    "sqlalchemy.sql.and_": ("SAnd", "varargs:S", "S"),
+                    "sqlalchemy.sql.or_": ("SOr", "varargs:S", "S"),
+                    "sqlalchemy.sql.not_": ("SNot", ["S"], "S"),
+                    "sqlalchemy.sql.literal": ("SBool", ["bool"], "S")}),
+    ]
+    hdr = "From DR Require Import Spec.SqlExpr.\nFrom Coq Require Import ZArith.\nLocal Open Scope Z_scope.\n"
+    return emit_file(os.path.join(out, "SqlRange.v"), hdr, units)
+
+
+ALL = {"Slice": gen_slice, "SqlRange": gen_sqlrange}
 
 
 def generate(repo, out, only=None):
